@@ -26,6 +26,7 @@ from six import binary_type
 from six.moves import range
 
 import mingus.core.intervals as intervals
+import mingus.core.keys as keys
 import mingus.core.notes as notes
 from mingus.containers.bar import Bar
 from mingus.containers.composition import Composition
@@ -159,16 +160,11 @@ class MidiFile(object):
                         # Key Signature
                         d = event["data"]
                         sharps = self.bytes_to_int(d[0])
-                        minor = self.bytes_to_int(d[0])
-                        if minor:
-                            key = "A"
-                        else:
-                            key = "C"
-                        for i in range(abs(sharps)):
-                            if sharps < 0:
-                                key = intervals.major_fourth(key)
-                            else:
-                                key = intervals.major_fifth(key)
+                        if sharps > 127:
+                            # the number of flats is stored as a negative byte
+                            sharps -= 256
+                        minor = self.bytes_to_int(d[1])
+                        key = keys.get_key(sharps)[1 if minor else 0]
                         b.key = Key(key)
                     else:
                         print("Unsupported META event", event["meta_event"])
